@@ -59,8 +59,10 @@ VARIABLES l, seg,
   clun,     \* clun[k]: HandOff taken, the client reader's cl.recv hook is still to come
   indlv,    \* indlv[k]: the client reader is between dlv.pre and dlv.post
   recBy,    \* recBy[k]: time by which connection k must be on an open socket again (Inf: no obligation)
-  crun      \* crun[k]: generation -> packet: R has taken the packet from P (P has moved on), R's own hook is still to come
-aux   == <<ncalls, tmo, t0, dlvAt, ansAt, trying, early, clun, indlv, recBy, crun>>
+  crun,     \* crun[k]: generation -> packet: R has taken the packet from P (P has moved on), R's own hook is still to come
+  sending,  \* sending[k]: somebody is inside Send's critical section of Connection.mu (after the status check, before the result)
+  refused   \* connection attempts the server has closed during their handshake and the client has not yet reported as failed dials
+aux   == <<ncalls, tmo, t0, dlvAt, ansAt, trying, early, clun, indlv, recBy, crun, sending, refused>>
 tvars == <<vars, l, seg, now, aux>>
 
 E == Trace[l]
@@ -78,11 +80,11 @@ TraceInit ==
   /\ t0 = [c \in Calls |-> Inf] /\ dlvAt = [c \in Calls |-> Inf] /\ ansAt = [c \in Calls |-> <<>>]
   /\ trying = [c \in Calls |-> FALSE] /\ early = [c \in Calls |-> FALSE]
   /\ clun = [k \in Conns |-> FALSE] /\ indlv = [k \in Conns |-> FALSE] /\ recBy = [k \in Conns |-> Inf]
-  /\ crun = [k \in Conns |-> <<>>]
+  /\ crun = [k \in Conns |-> <<>>] /\ sending = [k \in Conns |-> FALSE] /\ refused = 0
 
 TReset == /\ K = "Reset" /\ l = seg /\ E.nconns = NConns /\ E.ncalls \in 0..Cardinality(Calls)
           /\ ncalls' = E.ncalls /\ tmo' = E.timeout
-          /\ NoOp /\ UNCHANGED <<t0, dlvAt, ansAt, trying, early, clun, indlv, recBy, crun>>
+          /\ NoOp /\ UNCHANGED <<t0, dlvAt, ansAt, trying, early, clun, indlv, recBy, crun, sending, refused>>
 
 Deadline(c) == t0[c] + tmo
 IsCall(i) == i \in 1..ncalls
@@ -91,7 +93,7 @@ IsCall(i) == i \in 1..ncalls
 TCall == LET c == E.i IN
   /\ IsCall(c) /\ pc[c] = "start" /\ t0[c] = Inf
   /\ t0' = [t0 EXCEPT ![c] = T] /\ NoOp
-  /\ UNCHANGED <<ncalls, tmo, dlvAt, ansAt, trying, early, clun, indlv, recBy, crun>>
+  /\ UNCHANGED <<ncalls, tmo, dlvAt, ansAt, trying, early, clun, indlv, recBy, crun, sending, refused>>
 
 TimeoutJustified(c) ==
   /\ T >= Deadline(c) - 1
@@ -107,14 +109,14 @@ TCaller == LET c == E.i IN
        [] K = "send.nc"   -> conn[c] = E.c /\ SendNotConnected(c) /\ Same(aux)
        [] K = "send.try"  -> /\ pc[c] = "picked" /\ conn[c] = E.c /\ status[E.c] = "Connected" /\ ~trying[c]
                              /\ trying' = [trying EXCEPT ![c] = TRUE] /\ NoOp
-                             /\ UNCHANGED <<ncalls, tmo, t0, dlvAt, ansAt, early, clun, indlv, recBy, crun>>
+                             /\ UNCHANGED <<ncalls, tmo, t0, dlvAt, ansAt, early, clun, indlv, recBy, crun, sending, refused>>
        [] K = "send.ok"   -> /\ trying[c] /\ conn[c] = E.c
                              /\ IF early[c] THEN NoOp ELSE SendOk(c)
                              /\ trying' = [trying EXCEPT ![c] = FALSE] /\ early' = [early EXCEPT ![c] = FALSE]
-                             /\ UNCHANGED <<ncalls, tmo, t0, dlvAt, ansAt, clun, indlv, recBy, crun>>
+                             /\ UNCHANGED <<ncalls, tmo, t0, dlvAt, ansAt, clun, indlv, recBy, crun, sending, refused>>
        [] K = "send.fail" -> /\ trying[c] /\ ~early[c] /\ conn[c] = E.c /\ SendFail(c)
                              /\ trying' = [trying EXCEPT ![c] = FALSE]
-                             /\ UNCHANGED <<ncalls, tmo, t0, dlvAt, ansAt, early, clun, indlv, recBy, crun>>
+                             /\ UNCHANGED <<ncalls, tmo, t0, dlvAt, ansAt, early, clun, indlv, recBy, crun, sending, refused>>
        [] K = "ret.answer"  -> ~trying[c] /\ CallerRecv(c) /\ ret'[c] = <<"answer", E.h>> /\ Same(aux)
        [] K = "ret.timeout" -> ~trying[c] /\ TimeoutJustified(c) /\ CallerTimeout(c) /\ Same(aux)
        [] K = "ret.err"     -> pc[c] = "unreg" /\ ret[c][1] \in {"senderr", "notconnected"} /\ NoOp /\ Same(aux)
@@ -152,7 +154,7 @@ TServer == LET k == E.c  g == E.g IN
     [] K = "srv.ans"  -> /\ OnLink /\ Fin \in {"open", "cli"}
                          /\ IF Fin = "open" THEN E.i \in Calls /\ SrvAnswer(k, g, E.i, E.h) /\ MarkAns(E.i)
                             ELSE NoOp /\ UNCHANGED ansAt
-                         /\ UNCHANGED <<ncalls, tmo, t0, dlvAt, trying, early, clun, indlv, recBy, crun>>
+                         /\ UNCHANGED <<ncalls, tmo, t0, dlvAt, trying, early, clun, indlv, recBy, crun, sending, refused>>
     [] K = "srv.dup"  -> /\ OnLink /\ Fin \in {"open", "cli"} /\ Same(aux)
                          /\ IF Fin = "open" THEN E.i \in Calls /\ SrvDup(k, g, E.i, E.h) ELSE NoOp
     [] K = "srv.unk"  -> /\ OnLink /\ Fin \in {"open", "cli"} /\ Same(aux)
@@ -166,7 +168,7 @@ TServer == LET k == E.c  g == E.g IN
                               THEN /\ SrvDrop(k, g)
                                    /\ recBy' = [recBy EXCEPT ![k] = Min2(@, T + RecoverMs)]
                               ELSE NoOp /\ UNCHANGED recBy
-                         /\ UNCHANGED <<ncalls, tmo, t0, dlvAt, ansAt, trying, early, clun, indlv, crun>>
+                         /\ UNCHANGED <<ncalls, tmo, t0, dlvAt, ansAt, trying, early, clun, indlv, crun, sending, refused>>
 ServerKinds == {"srv.hsdrop", "srv.up", "srv.recv", "srv.ans", "srv.dup", "srv.unk", "srv.other", "srv.pong", "srv.drop"}
 
 \* -------------------------------------------------- generation g of connection c
@@ -174,7 +176,7 @@ PktMatches(p) == IF E.ty = "ans" THEN p.t = "ans" /\ p.id = E.i /\ p.v = E.h
                  ELSE p.t = "other" /\ p.v = E.h
 Pending(k, g) == g \in DOMAIN crun[k]
 ClearPending(k, g) == /\ crun' = [crun EXCEPT ![k] = [h \in DOMAIN @ \ {g} |-> @[h]]]
-                      /\ UNCHANGED <<ncalls, tmo, t0, dlvAt, ansAt, trying, early, clun, indlv, recBy>>
+                      /\ UNCHANGED <<ncalls, tmo, t0, dlvAt, ansAt, trying, early, clun, indlv, recBy, sending, refused>>
 TReader == LET k == E.c  g == E.g IN
   /\ OnLink
   /\ CASE K = "pkt.exit"   -> PktExit(k, g) /\ Same(aux)
@@ -195,17 +197,17 @@ TClient == LET k == E.c IN
             /\ clun[k] /\ clr[k].st = "got" /\ PktMatches(clr[k].pkt)
             /\ clun' = [clun EXCEPT ![k] = FALSE]
             /\ IF E.ty = "ans" THEN NoOp ELSE ClientReaderLookup(k)      \* not an answer: `continue`
-            /\ UNCHANGED <<ncalls, tmo, t0, dlvAt, ansAt, trying, early, indlv, recBy, crun>>
+            /\ UNCHANGED <<ncalls, tmo, t0, dlvAt, ansAt, trying, early, indlv, recBy, crun, sending, refused>>
        [] K = "lookup" ->
             /\ ~clun[k] /\ clr[k].st = "got" /\ clr[k].pkt.t = "ans" /\ clr[k].pkt.id = E.i
             /\ ClientReaderLookup(k) /\ (E.found = 1) = (clr'[k].st = "found") /\ Same(aux)
        [] K = "dlv.pre" ->
             /\ clr[k].st = "found" /\ clr[k].pkt.id = E.i /\ ~indlv[k] /\ ClientReaderDeliver(k)
             /\ indlv' = [indlv EXCEPT ![k] = TRUE] /\ dlvAt' = [dlvAt EXCEPT ![E.i] = T]
-            /\ UNCHANGED <<ncalls, tmo, t0, ansAt, trying, early, clun, recBy, crun>>
+            /\ UNCHANGED <<ncalls, tmo, t0, ansAt, trying, early, clun, recBy, crun, sending, refused>>
        [] K = "dlv.post" ->
             /\ indlv[k] /\ indlv' = [indlv EXCEPT ![k] = FALSE] /\ NoOp
-            /\ UNCHANGED <<ncalls, tmo, t0, dlvAt, ansAt, trying, early, clun, recBy, crun>>
+            /\ UNCHANGED <<ncalls, tmo, t0, dlvAt, ansAt, trying, early, clun, recBy, crun, sending, refused>>
 ClientKinds == {"cl.recv", "lookup", "dlv.pre", "dlv.post"}
 
 \* --------------------------------------------------------------- reconnect
@@ -217,10 +219,10 @@ TReconnect == LET k == E.c IN
        [] K = "rc.skip"  /\ E.who = "r"  -> E.g \in Gens(k) /\ status[k] = "Connecting" /\ ReaderRcBegin(k, E.g) /\ Same(aux)
        [] K = "rc.dialfail" -> /\ DialFail(k)
                                /\ recBy' = [recBy EXCEPT ![k] = IF @ = Inf THEN Inf ELSE Max2(@, T) + RetryMs + Slack]
-                               /\ UNCHANGED <<ncalls, tmo, t0, dlvAt, ansAt, trying, early, clun, indlv, crun>>
+                               /\ UNCHANGED <<ncalls, tmo, t0, dlvAt, ansAt, trying, early, clun, indlv, crun, sending, refused>>
        [] K = "conn.up" -> /\ E.g = gen[k] + 1 /\ SetupDone(k)
                            /\ recBy' = [recBy EXCEPT ![k] = IF L(k, E.g).fin = "open" THEN Inf ELSE T + RecoverMs]
-                           /\ UNCHANGED <<ncalls, tmo, t0, dlvAt, ansAt, trying, early, clun, indlv, crun>>
+                           /\ UNCHANGED <<ncalls, tmo, t0, dlvAt, ansAt, trying, early, clun, indlv, crun, sending, refused>>
 ReconnectKinds == {"rc.begin", "rc.skip", "rc.dialfail", "conn.up"}
 
 \* --------------------------------------------------------------- quiescence
@@ -243,21 +245,21 @@ Silent ==
   /\ l <= N /\ UNCHANGED <<l, seg, now>>
   /\ \/ /\ K = "srv.recv" /\ E.i \in Calls /\ trying[E.i] /\ ~early[E.i] /\ pc[E.i] = "picked" /\ conn[E.i] = E.c
         /\ SendOk(E.i) /\ early' = [early EXCEPT ![E.i] = TRUE]
-        /\ UNCHANGED <<ncalls, tmo, t0, dlvAt, ansAt, trying, clun, indlv, recBy, crun>>
+        /\ UNCHANGED <<ncalls, tmo, t0, dlvAt, ansAt, trying, clun, indlv, recBy, crun, sending, refused>>
      \/ /\ K = "cr.offered" /\ OnLink /\ L(E.c, E.g).r = "offer" /\ ~clun[E.c]
         /\ HandOff(E.c, E.g) /\ clun' = [clun EXCEPT ![E.c] = TRUE]
-        /\ UNCHANGED <<ncalls, tmo, t0, dlvAt, ansAt, trying, early, indlv, recBy, crun>>
+        /\ UNCHANGED <<ncalls, tmo, t0, dlvAt, ansAt, trying, early, indlv, recBy, crun, sending, refused>>
      \/ /\ K = "cl.recv" /\ E.c \in Conns /\ ~clun[E.c]
         /\ \E g \in Gens(E.c) : L(E.c, g).r = "offer" /\ PktMatches(L(E.c, g).rh) /\ HandOff(E.c, g)
         /\ clun' = [clun EXCEPT ![E.c] = TRUE]
-        /\ UNCHANGED <<ncalls, tmo, t0, dlvAt, ansAt, trying, early, indlv, recBy, crun>>
+        /\ UNCHANGED <<ncalls, tmo, t0, dlvAt, ansAt, trying, early, indlv, recBy, crun, sending, refused>>
      \/ /\ K = "Quiesce" /\ \E k \in Conns : \E g \in Gens(k) : PktStuck(k, g)
         /\ Same(aux)
      \* P logs its exit: it has handed over everything it parsed, so R has taken the last packet even if R's hook comes later
      \/ /\ K = "pkt.exit" /\ OnLink /\ Len(L(E.c, E.g).in) = 1 /\ ~Pending(E.c, E.g)
         /\ crun' = [crun EXCEPT ![E.c] = (E.g :> Head(L(E.c, E.g).in)) @@ @]
         /\ ConnReaderRecv(E.c, E.g)
-        /\ UNCHANGED <<ncalls, tmo, t0, dlvAt, ansAt, trying, early, clun, indlv, recBy>>
+        /\ UNCHANGED <<ncalls, tmo, t0, dlvAt, ansAt, trying, early, clun, indlv, recBy, sending, refused>>
 
 \* ------------------------------------------------------- what must hold after every event
 InTime == /\ \A c \in Calls : (t0'[c] # Inf /\ pc'[c] # "done") => now' <= t0'[c] + tmo' + Slack
